@@ -1,7 +1,7 @@
 (* Read-side API over a tree: roots.search (node.go:39-81), the iterators of
    iter.go (Methods, Prefix, All, Routes, Reverse) and Route/Has (fox.go:270-289). *)
 From FoxBase Require Import Bytes.
-From FoxRoute Require Import Node Lookup HostPort Tree.
+From FoxRoute Require Import Node Lookup HostPort Spec Guard Tree.
 Open Scope char_scope.
 
 (* roots.search: the node under which every route has the given prefix *)
@@ -64,7 +64,7 @@ Definition split_host_path (url : bytes) : bytes * bytes :=
 (* Router.Route / Has: lazy lookup of the pattern text, direct match, same pattern *)
 Definition route_of (r : roots) (m pattern : bytes) : option route :=
   let '(host, path) := split_host_path pattern in
-  match roots_lookup big_fuel r m (strip_host_port host) path true [] [] with
+  match roots_lookup_g big_fuel r m (strip_host_port host) path true [] [] with
   | Found (Some n) false _ _ =>
       match nroute n with
       | Some rt => if bytes_eqb (rpat rt) pattern then Some rt else None
